@@ -119,16 +119,21 @@ class InitMethod(MethodDescriptor):
         # status.
         if instance_metadata.owner is spec_cls:
             if instance_metadata.init_overflow_attr:
-                getattr(
-                    self, f"with_{instance_metadata.init_overflow_attr}"
-                )(  # TODO: avoid this
+                # Every keyword that is not a constructor argument of its own
+                # (attributes with `init=False` included) is an overflow
+                # keyword. As for the other attributes, nothing assigned during
+                # construction invalidates what was assigned before it.
+                self.__setattr__(
+                    instance_metadata.init_overflow_attr,
                     {
                         key: value
                         for key, value in kwargs.items()
-                        if key not in instance_metadata.annotations
+                        if key not in instance_metadata.attrs
+                        or not instance_metadata.attrs[key].init
                         or key == instance_metadata.init_overflow_attr
                     },
-                    _inplace=True,
+                    force=True,
+                    skip_invalidation=True,
                 )
 
             if instance_metadata.post_init:
